@@ -24,6 +24,9 @@ type Cut struct {
 	N        int    `json:"n"`
 	Event    string `json:"event,omitempty"` // "" | reopen | sync | snap (save a snapshot, recover it into a fresh replica which takes over)
 	RecvType int    `json:"recv_type,omitempty"`
+	// Late: the snapshot is prepared after this cut but saved only after the saver has applied the NEXT cut as well;
+	// the receiver recovers (at the prepare index) and re-applies that cut itself.
+	Late bool `json:"late,omitempty"`
 }
 
 type Partition struct {
@@ -51,6 +54,7 @@ func genPartition(t *rapid.T, n int, label string) Partition {
 		case 2, 3:
 			c.Event = "snap"
 			c.RecvType = rapid.IntRange(0, 1).Draw(t, label+".recv")
+			c.Late = rapid.Bool().Draw(t, label+".late")
 		}
 		p.Cuts = append(p.Cuts, c)
 		left -= k
@@ -83,6 +87,7 @@ type outcome struct {
 	leader  uint64
 	hash    uint64
 	snaps   int
+	late    int
 	mixed   bool // some batch held an entry with a leader index next to one without
 }
 
@@ -142,6 +147,19 @@ func runPartition(c Case, p Partition, name string, m *model.Map) (*outcome, *vt
 			if err != nil {
 				return nil, vt.Failf(prop+"/snapshot-error", ci, "%s: prepare: %v", name, err)
 			}
+			if cut.Late && ci+1 < len(p.Cuts) {
+				// the saver keeps applying while the snapshot is pending; none of this may leak into the snapshot
+				nc := p.Cuts[ci+1]
+				if _, err := r.Apply(fsmx.MkEntries(uint64(next+1), c.Cmds[next:next+nc.N])); err != nil {
+					return nil, vt.Failf(prop+"/apply-error", ci, "%s: Update between prepare and save: %v", name, err)
+				}
+				out.late++
+				if cut.RecvType == 1 { // half of the late snapshots also see a flush before they are saved (dragonboat: prepare, Sync, save)
+					if err := r.SM.Sync(); err != nil {
+						return nil, vt.Failf(prop+"/sync-error", ci, "%s: %v", name, err)
+					}
+				}
+			}
 			data, err := r.Save(ctx, nil)
 			if err != nil {
 				return nil, vt.Failf(prop+"/snapshot-error", ci, "%s: save: %v", name, err)
@@ -157,6 +175,9 @@ func runPartition(c Case, p Partition, name string, m *model.Map) (*outcome, *vt
 			_ = r.Close()
 			r = nr
 			out.snaps++
+			if li, err := r.LocalIndex(); err != nil || li != uint64(next) {
+				return nil, vt.Failf(prop+"/snapshot-not-at-prepare-index", ci, "%s: replica recovered from a snapshot prepared at index %d reports applied index %d (%v)", name, next, li, err)
+			}
 		}
 	}
 	all, err := r.All()
@@ -244,6 +265,9 @@ func run(c Case, o *vt.Obs) *vt.Failure {
 	}
 	if a.snaps+b.snaps > 0 {
 		o.Label("snapshot-transfer")
+	}
+	if a.late+b.late > 0 {
+		o.Label("writes-between-prepare-and-save")
 	}
 	if c.A.Type != c.B.Type {
 		o.Label("replicas-use-different-snapshot-formats")
